@@ -26,7 +26,7 @@ func (c08) Rule() string {
 func (c08) Exhaustive(string) string { return "" }
 func (c08) Runs(tier string) int64 {
 	if tier == "thorough" {
-		return 2400000
+		return 24000000
 	}
 	return 40000
 }
